@@ -38,6 +38,7 @@ EdgeDiff(e, h) ==
     CASE h = 1 -> D!DRoot(D!None, D!None, AddClass("N" \o id, "n" \o id))
       [] h = 2 -> D!DRoot(D!None, D!None, AddClass("N" \o id, "n" \o id) @@
                           ("c K" :> D!DNode(D!DKey("c", "K", "", 0), D!None, D!Add(<<"doc " \o id>>), <<>>)))
+      [] h = 0 -> D!DRoot(D!None, D!None, <<>>)                           \* graph-only family: empty diffs
       [] h = 3 -> D!DRoot(D!None, D!None, AddClass("K$I$" \o id, "in" \o id) @@
                           ("c K$I" :> D!DNode(D!DKey("c", "K$I", "", 0), D!Edit("i", "j" \o id), D!None, <<>>)))
 
@@ -63,6 +64,20 @@ PickEdges ==
     /\ phase = "start"
     /\ \E E \in {E \in SUBSET Pairs : Cardinality(E) <= MaxEdges} \cup Shapes : dir' = [edges |-> E]
     /\ phase' = "edges" /\ UNCHANGED listing
+(* graph-only family: every edge set of 3..5 edges (thorough: every edge set) with one root and  *)
+(* empty diffs - cycles entered at several places, cross edges, long detours                     *)
+GraphOnly == IF Tier = 0 THEN {E \in SUBSET Pairs : Cardinality(E) \in 3..5} ELSE SUBSET Pairs
+PickGraphEdges ==
+    /\ phase = "start"
+    /\ \E E \in GraphOnly : dir' = [gedges |-> E]
+    /\ phase' = "gedges" /\ UNCHANGED listing
+PickGraphOnly ==
+    /\ phase = "gedges"
+    /\ \E r \in V :
+        LET files == {r \o TINY} \cup {FileOfEdge(e) : e \in dir.gedges}
+        IN /\ dir' = [files |-> files, content |-> Content({r}, dir.gedges, 0), h |-> 0]
+           /\ listing' = SetToSeq(files)
+    /\ phase' = "case"
 PickRest ==
     /\ phase = "edges"
     /\ \E roots \in {{}} \cup {{r} : r \in V} \cup {{"a", "b"}}, h \in 1..3, extra \in {{}, {"README.md"}, {"a#b.txt", "broken.tinydiff"}} :
@@ -83,7 +98,7 @@ PickCollision ==
                                                 ELSE [tree |-> <<>>, diff |-> EdgeDiff(<<"a", "b">>, 1)]]]
         /\ \E p \in Permutations(1..Cardinality(files)) : listing' = [i \in 1..Cardinality(files) |-> SetToSeq(files)[p[i]]]
     /\ phase' = "collision"
-Next == PickEdges \/ PickRest \/ PickCollision
+Next == PickEdges \/ PickRest \/ PickCollision \/ PickGraphEdges \/ PickGraphOnly
 Spec == Init /\ [][Next]_vars
 
 ---------------------------------------------------------------------------
